@@ -34,6 +34,11 @@ type WitnessDef struct {
 	File string `json:"file"` // test source under /verif/witness
 	Test string `json:"test"`
 	What string `json:"what"`
+	// Label overrides the evidence label (default: witness); TimeoutS /
+	// ThoroughTimeoutS the go test timeout of the tier (default 120 s)
+	Label            string `json:"label"`
+	TimeoutS         int    `json:"timeout_s"`
+	ThoroughTimeoutS int    `json:"thorough_timeout_s"`
 }
 
 type BoundedDef struct {
@@ -442,12 +447,22 @@ func runProperty(ld *Loader, verif, prop, tier, dir string, timeout, workers int
 		if onlyFunc != "" {
 			break
 		}
-		cases, out, err := runWitness(ld, verif, wd, dir)
+		cases, out, err := runWitness(ld, verif, wd, dir, tier)
 		if err != nil {
 			fmt.Fprintf(os.Stderr, "govc: witness %s could not run: %v\n", wd.Name, err)
 			return 2
 		}
-		ev := map[string]interface{}{"name": wd.Name, "what": wd.What, "label": "witness (concrete programs on the real code; never counted as proved)", "cases": cases}
+		label := "witness (concrete programs on the real code; never counted as proved)"
+		if wd.Label != "" {
+			label = wd.Label
+		}
+		ev := map[string]interface{}{"name": wd.Name, "what": wd.What, "label": label, "cases": cases}
+		for _, l := range strings.Split(out, "\n") {
+			if i := strings.Index(l, "GOVC-EXPLORE "); i >= 0 {
+				exp, _ := ev["explored"].([]string)
+				ev["explored"] = append(exp, strings.TrimSpace(l[i+len("GOVC-EXPLORE "):]))
+			}
+		}
 		var ids []string
 		for id := range cases {
 			ids = append(ids, id)
@@ -585,7 +600,7 @@ func runProperty(ld *Loader, verif, prop, tier, dir string, timeout, workers int
 
 // runWitness runs a witness test against the real code and returns case-id ->
 // "ok ..." | "FAIL ...".
-func runWitness(ld *Loader, verif string, wd WitnessDef, dir string) (map[string]string, string, error) {
+func runWitness(ld *Loader, verif string, wd WitnessDef, dir string, tier string) (map[string]string, string, error) {
 	src, err := os.ReadFile(filepath.Join(verif, "witness", wd.File))
 	if err != nil {
 		return nil, "", err
@@ -604,9 +619,16 @@ func runWitness(ld *Loader, verif string, wd WitnessDef, dir string) (map[string
 	ob, _ := json.Marshal(ov)
 	ovFile := filepath.Join(tdir, "ov.json")
 	os.WriteFile(ovFile, ob, 0o644)
-	cmd := exec.Command("go", "test", "-overlay", ovFile, "-vet=off", "-timeout", "120s", "-count=1", "-v", "-run", "^"+wd.Test+"$", ".")
+	to := 120
+	if wd.TimeoutS > 0 {
+		to = wd.TimeoutS
+	}
+	if tier == "thorough" && wd.ThoroughTimeoutS > 0 {
+		to = wd.ThoroughTimeoutS
+	}
+	cmd := exec.Command("go", "test", "-overlay", ovFile, "-vet=off", "-timeout", fmt.Sprintf("%ds", to), "-count=1", "-v", "-run", "^"+wd.Test+"$", ".")
 	cmd.Dir = p.Dir
-	cmd.Env = append(os.Environ(), "GOFLAGS=-mod=mod", "GOPROXY=off", "GOSUMDB=off", "GOTOOLCHAIN=local")
+	cmd.Env = append(os.Environ(), "GOFLAGS=-mod=mod", "GOPROXY=off", "GOSUMDB=off", "GOTOOLCHAIN=local", "VERIF_TIER="+tier)
 	out, _ := cmd.CombinedOutput()
 	cases := map[string]string{}
 	for _, l := range strings.Split(string(out), "\n") {
